@@ -120,10 +120,10 @@ PROPS.update({
                 bounds={"shapes": SHAPES_NOTE, "merge3": "S13 (c01_merge3): three live keys, merge of everything rolling over into three output files, reads after the merge and after a reopen", "bigentry": "S12 (c01_bigentry): a put whose record (8 bytes, 3 SYMBOLIC value bytes) is as long as the scaled write buffer (8), longer than one scaled BufReader fill and larger than max_file_size (0); read back at once, after a later write, and after a reopen", "outside": "longer histories, more keys, longer keys/values, real DashMap/LRU/mmap implementations, real bincode layout, the real 8 KiB buffer size (scaled to 8 bytes)"},
                 assumptions=STORE_ASSUME),
     "C02": dict(crate="store", title="Closing and reopening a store preserves exactly its contents, deletions included",
-                harnesses=[H("c01_shape_1", timeout=1500, rules=STORE_RULES, covers=["three rollovers"]), H("c01_shape_9", timeout=1500, rules=STORE_RULES), H("c01_shape_4", timeout=1500, rules=STORE_RULES),
+                harnesses=[H("c01_shape_1", timeout=1500, rules=STORE_RULES, covers=["three rollovers"]), H("c01_shape_9", timeout=1500, rules=STORE_RULES), H("c01_shape_4", timeout=1500, rules=STORE_RULES), H("c02_reopen3", timeout=1500, rules=STORE_RULES),
                            H("c01_shape_2", tier="thorough", timeout=1500, rules=STORE_RULES, mem_gb=28),
                            H("c01_shape_3", timeout=1500, rules=STORE_RULES), H("c01_shape_5", tier="thorough", timeout=1500, rules=STORE_RULES), H("c12_shape_4", tier="thorough", timeout=1500, rules=STORE_RULES)],
-                bounds={"shapes": SHAPES_NOTE + "; every shape ends with a reopen through the real rebuild_storage (scan path and hint path) and re-reads both keys", "outside": "two-digit file ids and foreign directory entries (name parsing is executed on single-digit ids only)"},
+                bounds={"shapes": SHAPES_NOTE + "; every shape ends with a reopen through the real rebuild_storage (scan path and hint path) and re-reads both keys; S14 (c02_reopen3): a directory with a deleted key, an overwritten key and a hinted merge output is opened three times in a row without writing: same reads, statistics equal to ground truth, total data size unchanged, one new empty file per open", "outside": "two-digit file ids and foreign directory entries (name parsing is executed on single-digit ids only)"},
                 assumptions=STORE_ASSUME),
     "C05": dict(crate="store", title="Compaction never changes what any key reads, now or after a restart",
                 harnesses=_shapes("c01", [2, 3, 4, 5, 6, 9], tier_of=lambda i: "quick" if i in (3, 4, 6, 9) else "thorough", covers={2: ["the merge wrote a hint entry"], 6: ["the tombstone's file was merged"], 9: ["the merge wrote a hint entry"]}) + [H("c01_merge3", timeout=1500, rules=STORE_RULES, covers=["the merge wrote a third output file"])],
